@@ -20,8 +20,8 @@ ASSUMPTIONS = [
     "termination not checked by Kani",
 ]
 NOT_DECIDED = [
-    "whole-container round trips (Vec/BTreeMap/struct/enum through Any) — only per-step frames are proved",
-    "BTreeMap insertion/iteration order inside MapSerializer/MapDeserializer (std BTreeMap is out of CBMC's reach)",
+    "whole-container round trips (Vec/BTreeMap/struct/enum through Any) — only per-step frames are proved (serializer side: sequences, tuples, single-entry maps, struct fields, newtype/tuple variants; deserializer side: sequences, map values)",
+    "maps with more than one entry (std BTreeMap ordering is out of CBMC's reach); the deserializer side of maps (MapDeserializer over BTreeMap::into_iter: single-entry harnesses timed out at 300 s) — only the value half of an entry is proved",
     "JSON text parsing/printing (serde_json); Base64 decoding beyond the bound",
     "enum views (deserialize_enum / EnumDeserializer / VariantDeserializer)",
 ]
@@ -103,6 +103,16 @@ _ser = [
       "tuple serializer: same frame"),
     H("tuple_struct_serializer_steps", "C13.K.frame.tuple_struct_serializer", SER, ["SerializeTupleStruct for SeqSerializer::serialize_field", "SerializeTupleStruct for SeqSerializer::end", "Serializer for AnySerializer::serialize_tuple_struct"],
       "tuple-struct serializer: same frame"),
+    H("any_seq_reserializes_elements_in_order", "C13.K.frame.serialize_seq", SER, ["Serialize for Any::serialize"],
+      "serializing a sequence held in an Any re-emits its elements unchanged, in order, with the right length hint", timeout=300),
+    H("newtype_variant_is_single_entry_map", "C13.K.frame.newtype_variant", SER, ["Serializer for AnySerializer::serialize_newtype_variant"],
+      "a newtype variant is stored as the single-entry map {variant: payload} (all i64 payloads)", timeout=300),
+    H("tuple_variant_is_single_entry_map_of_seq", "C13.K.frame.tuple_variant", SER, ["SerializeTupleVariant for TupleVariantSerializer::serialize_field", "SerializeTupleVariant for TupleVariantSerializer::end", "Serializer for AnySerializer::serialize_tuple_variant"],
+      "a tuple variant is stored as {variant: [elements in order]}", timeout=300),
+    H("map_serializer_entry_is_stored_as_that_pair", "C13.K.frame.map_entry", SER, ["SerializeMap for MapSerializer::serialize_key", "SerializeMap for MapSerializer::serialize_value", "SerializeMap for MapSerializer::end"],
+      "a map entry with a typed (non-string) key is stored as exactly that key/value pair (all i32 keys, all f64 values bitwise)", timeout=300),
+    H("struct_serializer_field_is_stored_under_its_name", "C13.K.frame.struct_field", SER, ["SerializeStruct for MapSerializer::serialize_field", "SerializeStruct for MapSerializer::end", "Serializer for AnySerializer::serialize_struct"],
+      "a struct field is stored under its name with its value", timeout=300),
     H("map_serializer_key_then_value", "C13.K.frame.map_key", SER, ["SerializeMap for MapSerializer::serialize_key", "Serializer for AnySerializer::serialize_map"],
       "serialize_key holds the typed key until the value arrives; nothing is inserted yet"),
     H("map_serializer_value_without_key_is_error", "C13.K.frame.map_value_without_key", SER, ["SerializeMap for MapSerializer::serialize_value"],
